@@ -130,12 +130,22 @@ fn client(port: u16, id: usize, state: State, seed: u64, stop_after: Duration) -
         }
         State::BigReply => {
             let k = key(0);
-            let v = crate::checks::c04::value_for(id as u64 + 1, r.range(300_000, 1_000_000) as usize);
+            // half of these replies are larger than what the socket buffers of both sides can absorb
+            // (about 4 MB on loopback), so that the handler is parked inside the write when the
+            // trigger fires; the client's receive buffer is kept small for the same reason
+            let huge = r.chance(1, 2);
+            if huge {
+                use std::os::unix::io::AsRawFd;
+                let sz: libc::c_int = 32 * 1024;
+                unsafe { libc::setsockopt(rx.s.as_raw_fd(), libc::SOL_SOCKET, libc::SO_RCVBUF, &sz as *const _ as *const libc::c_void, std::mem::size_of::<libc::c_int>() as u32) };
+            }
+            let size = if huge { r.range(6_000_000, 12_000_000) } else { r.range(300_000, 1_000_000) } as usize;
+            let v = crate::checks::c04::value_for(id as u64 + 1, size);
             let _ = tx.write_all(&command(&[b"SET", &k, &v]));
             res.sent.push((k.clone(), Some(v.clone())));
             res.expected.push(b"+OK\r\n".to_vec());
             // ask for it several times and read slowly
-            for _ in 0..r.range(1, 4) {
+            for _ in 0..(if huge { r.range(1, 2) } else { r.range(1, 4) }) {
                 let _ = tx.write_all(&command(&[b"GET", &k]));
                 res.sent.push((k.clone(), Some(v.clone())));
                 res.expected.push(encode(&RFrame::Bulk(v.clone())));
